@@ -4,8 +4,8 @@ from ..sim import Monitor
 from .common import all_demes, flat, not_worse, strictly_better
 
 PROP = "C12"
-N_QUICK = 2500
-N_THOROUGH = 50000
+N_QUICK = 8000
+N_THOROUGH = 200000
 RULE = ("Plans: SEA variants with every elite count from 1 to the population size, DE (+-dither), SHADE, CMA-ES, MWEA, "
         "LHS / Sobol / custom; plateau / tie / constant objectives over-weighted; both directions; generations per "
         "metaepoch 1-4; faults: budget exhaustion (sentinels count as worst), stop signal, injected LSC verdicts.")
